@@ -23,6 +23,7 @@ STRATA = [
     ("max-nodes", 150, 3000),
     ("unbounded", 100, 2000),
     ("deep-tree", 150, 3000),
+    ("int-ties", 8000, 60000),
     ("inplace-seq", 250, 3000),
     ("many-nodes", 1, 8),
 ]
@@ -150,6 +151,22 @@ def gen(stratum, rng, tier):
             subs.append({"kind": "bin", "c": [rng.randint(1, 30) for _ in range(n)], "A": A, "b": b, "ints": list(range(n)),
                          "minimize": rng.random() < 0.5, "rounds": 1, "cfg": {}, "planted": [int(p) for p in pick]})
         return {"kind": "bin-multi", "subs": subs}
+    if stratum == "int-ties":
+        # small pure-integer programs with tied costs and coefficients (many LP bounds coincide, many optimal points):
+        # whatever order the tree is searched in, OPTIMAL needs every open node to be unable to beat the incumbent
+        n = rng.randint(2, 4)
+        U = rng.randint(1, 3)
+        pool = rng.choice([[1, 1, 2], [1, 2, 3], [1, 1, 1, 2, -1], [2, 3, -1, -2], [1, 2, 3, 4, 5]])
+        A = [[rng.choice(pool + [0]) for _ in range(n)] for _ in range(rng.randint(1, 3))]
+        b = [rng.randint(1, 7) for _ in A]
+        for j in range(n):
+            r = [0] * n
+            r[j] = 1
+            A.append(r)
+            b.append(U)
+        cfg = rng.choice([{}, {}, {}, {"heuristics": False}, {"gap_tol": 1e-9}])
+        return {"kind": "bin", "box": U, "c": [rng.choice([1, 1, 2, -1, -1, -2, 3, 0]) for _ in range(n)], "A": A, "b": b,
+                "ints": list(range(n)), "minimize": rng.random() < 0.5, "rounds": 1, "cfg": cfg}
     if stratum == "inplace-seq":
         # k-best enumeration the way callers write it: ONE constraint matrix, a no-good cut appended in place after each
         # solve, same seed, LNS on - every round is a new problem and has to be answered as such
@@ -489,7 +506,7 @@ def _run_bin(case, obs):
             # too many points to enumerate: the planted point proves feasibility and bounds the optimum from one side
             best, arg = sum(ci * v for ci, v in zip(c, planted)), tuple(planted)
         else:
-            for x in product((0, 1), repeat=n):
+            for x in product(range(case.get("box", 1) + 1), repeat=n):
                 if all(sum(a * v for a, v in zip(row, x)) <= rhs for row, rhs in zip(A, b)):
                     val = sum(ci * v for ci, v in zip(c, x))
                     if best is None or (val < best if minimize else val > best):
